@@ -1,4 +1,5 @@
-/* LD_PRELOAD shim for the xtmc harness: controls write(2)/writev(2) on fd 1 of the xt process.
+/* LD_PRELOAD shim for the xtmc harness: controls write(2)/writev(2) on the standard output of the xt process
+ * (descriptor 1 and every descriptor that refers to the same open file object, e.g. a dup of it).
  *   WFAULT_AT=j      index (0-based) of the first affected write call on fd 1
  *   WFAULT_ERRNO=e   from call j on, every write on fd 1 fails with errno e
  *   WFAULT_SHORT=m   call j alone is short: accepts 1 byte (m=1) or len-1 bytes (m=2)
@@ -11,6 +12,7 @@
 #include <stdio.h>
 #include <stdlib.h>
 #include <string.h>
+#include <sys/stat.h>
 #include <sys/uio.h>
 #include <unistd.h>
 
@@ -18,6 +20,9 @@ static ssize_t (*real_write)(int, const void *, size_t);
 static ssize_t (*real_writev)(int, const struct iovec *, int);
 static int inited, logfd = -1;
 static long at = -1, err_no = 0, short_mode = 0, count = 0;
+static int have_id;
+static dev_t out_dev;
+static ino_t out_ino;
 
 static void init(void) {
 	if (inited) return;
@@ -29,6 +34,17 @@ static void init(void) {
 	if ((s = getenv("WFAULT_ERRNO"))) err_no = atol(s);
 	if ((s = getenv("WFAULT_SHORT"))) short_mode = atol(s);
 	if ((s = getenv("WFAULT_LOG"))) logfd = open(s, O_WRONLY | O_CREAT | O_APPEND, 0600);
+	struct stat st;
+	if (fstat(1, &st) == 0) { have_id = 1; out_dev = st.st_dev; out_ino = st.st_ino; }
+}
+
+/* descriptor 1, or another descriptor for the very same pipe / file / device (stderr and the log are
+ * different objects in every harness run) */
+static int is_stdout(int fd) {
+	if (fd == 1) return 1;
+	if (fd == 2 || fd == logfd || !have_id) return 0;
+	struct stat st;
+	return fstat(fd, &st) == 0 && st.st_dev == out_dev && st.st_ino == out_ino;
 }
 
 /* returns -2 when the call should go through unchanged, otherwise the length to pass on (or -1 = fail) */
@@ -47,7 +63,7 @@ static long decide(size_t len) {
 
 ssize_t write(int fd, const void *buf, size_t len) {
 	init();
-	if (fd == 1) {
+	if (is_stdout(fd)) {
 		long d = decide(len);
 		if (d == -1) { errno = (int)err_no; return -1; }
 		if (d >= 0) return real_write(fd, buf, (size_t)d);
@@ -57,7 +73,7 @@ ssize_t write(int fd, const void *buf, size_t len) {
 
 ssize_t writev(int fd, const struct iovec *iov, int n) {
 	init();
-	if (fd == 1) {
+	if (is_stdout(fd)) {
 		size_t len = 0;
 		for (int i = 0; i < n; i++) len += iov[i].iov_len;
 		long d = decide(len);
